@@ -142,3 +142,108 @@ def call_axis_agreement(repo, rep, rule):
                     rep.check(not bad, rule, f"ethosu/vela/{m.name}.py:{q}", f"{norm(c)[:80]}: parameter `{p}` ({pa} axis) of {tq} receives a {pa}-axis value",
                               f"receives {', '.join(f'{t} ({ax})' for ax, t in bad)}")
     return n
+
+
+def _member_of_value(e):
+    """(base text, member) of a pure member access B.m / B.m() / B[X.m] / B['m'], else None."""
+    if isinstance(e, ast.Call) and not e.args and not e.keywords and isinstance(e.func, ast.Attribute):
+        e = e.func
+    if isinstance(e, ast.Attribute):
+        return (norm(e.value), e.attr)
+    if isinstance(e, ast.Subscript):
+        s = e.slice
+        if isinstance(s, ast.Attribute):
+            return (norm(e.value), s.attr)
+        if isinstance(s, ast.Constant):
+            return (norm(e.value), str(s.value))
+    return None
+
+
+def _member_of_target(t):
+    if isinstance(t, ast.Attribute):
+        return (norm(t.value), t.attr)
+    if isinstance(t, ast.Subscript):
+        s = t.slice
+        if isinstance(s, ast.Attribute):
+            return (norm(t.value), s.attr)
+        if isinstance(s, ast.Constant):
+            return (norm(t.value), str(s.value))
+    if isinstance(t, ast.Name):
+        return ("", t.id)
+    return None
+
+
+def mirror_families(repo, rep, rule, wanted):
+    """Member-for-member copies: a run of assignments `A.m = B.m`, dictionary entries `K.m: B[K.m]` or keyword
+    arguments `m=B.m` (>= 3 members mirrored) forms a family; every entry of the family's statement list / display /
+    call that copies from the same source must copy the member it is named after (`res.max = self.min`,
+    `Acc40: granules[Acc32]`, `height=blk.width` are copy-paste slips). `wanted` maps (module, target base, source
+    base) -> why this family matters for the property; only those families are checked, each must still exist."""
+    found = {}
+    for m in repo.core_modules():
+        if not any(k[0] == m.name for k in wanted):
+            continue
+        groups = []
+        for n in ast.walk(m.tree):
+            for fld in ("body", "orelse"):
+                b = getattr(n, fld, None)
+                if isinstance(b, list) and b and isinstance(b[0], ast.stmt):
+                    groups.append([(_member_of_target(s.targets[0]), s.value, s.lineno) for s in b if isinstance(s, ast.Assign) and len(s.targets) == 1])
+            if isinstance(n, ast.Dict):
+                groups.append([((("", k.attr) if isinstance(k, ast.Attribute) else ("", str(k.value)) if isinstance(k, ast.Constant) else None), v, v.lineno)
+                               for k, v in zip(n.keys, n.values) if k is not None])
+            if isinstance(n, ast.Call) and len(n.keywords) >= 3:
+                groups.append([(("", k.arg), k.value, k.value.lineno) for k in n.keywords if k.arg])
+        for g in groups:
+            g = [x for x in g if x[0]]
+            fam = {}
+            for (tb, tm), v, ln in g:
+                lk = _member_of_value(v)
+                if lk and lk[1] == tm:
+                    fam.setdefault((tb, lk[0]), []).append(tm)
+            for (tb, vb), members in fam.items():
+                key = (m.name, tb, vb)
+                if key not in wanted or len(members) < 2:
+                    continue  # (a reviewed family stays recognised when one of its three members is the slip itself)
+                found[key] = found.get(key, 0) + 1
+                fn = None
+                for (tb2, tm), v, ln in g:
+                    lk = _member_of_value(v)
+                    if tb2 != tb or not lk or lk[0] != vb:
+                        continue
+                    rep.check(lk[1] == tm or lk[1] not in members, rule, f"ethosu/vela/{m.name}.py", f"`{(tb + '.') if tb else ''}{tm}` is copied from `{vb}.{tm}` ({wanted[key]})",
+                              f"`{(tb + '.') if tb else ''}{tm}` takes `{norm(v)}`, a sibling member of the same member-for-member copy (line {ln})")
+    missing = [k for k in wanted if k not in found]
+    if missing:
+        from ..core import AnalysisError
+
+        raise AnalysisError(f"member-for-member copy families no longer found: {missing}")
+
+
+AXIS_EXEMPT = {
+    ("register_command_stream_util", "get_strides"): "memory strides: the byte stride of one axis is the extent of the next inner axis times its stride",
+    ("register_command_stream_generator", "print_operation"): "product of all kernel parameters compared with 1 (an 'is trivial kernel' test)",
+    ("tosa_graph_optimiser", "get_nhwc_stride"): "memory strides",
+    ("shape4d", "Shape4D.is_empty"): "sum over all axes compared with 0",
+    ("operation_util", "create_depthwise_maxpool"): "deliberate transposition: the depth axis is laid out along the width for the max-pool trick",
+    ("tflite_graph_optimiser", "convert_argmax_to_depthwise_conv_and_max_pool"): "element-count limit: height bound derived from 2^16 / width",
+}
+
+
+def module_axis_lint(repo, rep, rule, modules):
+    """Axis / side homogeneity (roles.RoleChecker.check_function) over every function of the given modules: additive
+    expressions, comparisons and axis-named bindings mix H, W and C quantities nowhere except in the reviewed table."""
+    from ..roles import RoleChecker
+
+    rc = RoleChecker()
+    n = 0
+    for mname in modules:
+        m = repo.mod(mname)
+        for q, fn in m.functions.items():
+            if (mname, q) in AXIS_EXEMPT:
+                rep.info(rule, f"ethosu/vela/{mname}.py:{q}", "axis roles", "exempt: " + AXIS_EXEMPT[(mname, q)])
+                continue
+            for kind, txt, detail in rc.check_function(fn):
+                n += 1
+                (rep.bad if kind == "bad" else rep.ok)(rule, f"ethosu/vela/{mname}.py:{q}", txt[:110], detail)
+    return n
